@@ -22,10 +22,9 @@ class mesh_to_mesh(SpaceTransfer):
         Args:
             F: the fine level data (easier to access than via the fine attribute)
         """
-        if isinstance(F, mesh):
-            G = mesh(F)
-        elif isinstance(F, imex_mesh):
-            G = imex_mesh(F)
+        if isinstance(F, (mesh, imex_mesh)):
+            # multi-component meshes such as imex_mesh are meshes, too: copy with the type of the input
+            G = type(F)(F)
         else:
             raise TransferError('Unknown data type, got %s' % type(F))
         return G
@@ -37,10 +36,9 @@ class mesh_to_mesh(SpaceTransfer):
         Args:
             G: the coarse level data (easier to access than via the coarse attribute)
         """
-        if isinstance(G, mesh):
-            F = mesh(G)
-        elif isinstance(G, imex_mesh):
-            F = imex_mesh(G)
+        if isinstance(G, (mesh, imex_mesh)):
+            # multi-component meshes such as imex_mesh are meshes, too: copy with the type of the input
+            F = type(G)(G)
         else:
             raise TransferError('Unknown data type, got %s' % type(G))
         return F
